@@ -40,6 +40,8 @@ OBLIGATIONS = [
     "Grog.C11.reject_names_present_defect",
     "Grog.C11.reject_runs_nothing",
     "Grog.C11.executes_iff",
+    "Grog.C11.executes_only_after_accept",
+    "Grog.C11.all_diagnostics_name_present_defects",
     "Grog.C11.findCycle_sound",
     "Grog.C11.findCycle_complete",
     "Grog.C11.ancestorSet_eq_reach",
@@ -1041,6 +1043,12 @@ INVALID_CMDS = WHOLE_CMDS + [("build", "//%s/..." % GOOD_PKG), ("build", "//%s:a
                              ("@" + GOOD_PKG, "build", ":app"), ("@" + GOOD_PKG, "build"), ("@" + GOOD_PKG, "check")]
 
 
+# on a VALID workspace: requests that the stages after the analysis must stop (command model `afterAccept` / label lookup
+# of `run`): nothing selected, a pattern without tests under `test`, `run` of a target without binary output or of an
+# undefined label — exit != 0 and nothing ran
+LATER_STAGE_CMDS = [("build", "//nosuchpkg/..."), ("test", "//p/..."), ("run", "//p:a"), ("run", "//p:nosuch"), ("build", "--tag=nosuchtag", "//...")]
+
+
 def cli_smoke(ctx, quick):
     """`grog check|build|test|run` on materialised workspaces. Invalid loaded graph (wherever the defect sits, whatever
     is selected) => exit != 0, a diagnostic, and no command ran; valid => exit 0."""
@@ -1070,7 +1078,7 @@ def cli_smoke(ctx, quick):
         if not valid and not has_good and not files:
             nodes = list(nodes) + good_nodes()                           # defects are monotone: still invalid
         if valid:
-            cmds = list(INVALID_CMDS) if has_good else [("check",)] + ([("build", "//...")] if not name.startswith("gen") else [])
+            cmds = list(INVALID_CMDS) + LATER_STAGE_CMDS if has_good else [("check",)] + ([("build", "//...")] if not name.startswith("gen") else [])
         else:
             cmds = INVALID_CMDS if not files else [("check",), ("build", "//..."), ("test", "//...")]
         for j, cmd in enumerate(cmds):
@@ -1104,6 +1112,11 @@ def cli_smoke(ctx, quick):
         replay = {"kind": "oracle", "oracle": "CLI", "case": name, "command": cs, "nodes": nodes, "rc": rc, "ran": ran, "output": out,
                   "selects_only_the_valid_package": partial}
         tag = name + (":" + verb + "-valid-part-only" if partial else "")
+        if valid and cmd in LATER_STAGE_CMDS:
+            if ok_now or ran:
+                ctx.violation("grog %s on a valid workspace should stop before executing (nothing selected / no binary)" % cs, replay,
+                              found_input=False)
+            continue
         if valid and not ok_now:
             ctx.violation("grog %s fails on a valid workspace" % cs, replay, signature="cli-rejected-valid:" + tag)
         if not valid and ok_now:
